@@ -366,3 +366,111 @@ func goOrdinal(fn *ssa.Function, gi *ssa.Go) int {
 	}
 	return 0
 }
+
+// isChannelType: the pushers.Channel interface.
+func isChannelType(t types.Type) bool {
+	n := NamedOf(t)
+	return n != nil && n.Obj().Pkg() != nil && strings.HasSuffix(n.Obj().Pkg().Path(), "/pushers") && n.Obj().Name() == "Channel"
+}
+
+type chanField struct {
+	owner *types.Named
+	name  string
+}
+
+// channelFieldsWritten: the pushers.Channel fields the SetChannel method the server calls on *T (through embedding,
+// if promoted) stores its argument into.
+func channelFieldsWritten(p *Program, t *types.Named) (map[chanField]bool, *ssa.Function) {
+	ms := p.SSA.MethodSets.MethodSet(types.NewPointer(t))
+	var sel *types.Selection
+	for i := 0; i < ms.Len(); i++ {
+		if ms.At(i).Obj().Name() == "SetChannel" {
+			sel = ms.At(i)
+		}
+	}
+	if sel == nil {
+		return nil, nil
+	}
+	decl := p.SSA.FuncValue(sel.Obj().(*types.Func))
+	out := map[chanField]bool{}
+	if decl == nil || decl.Blocks == nil {
+		return out, decl
+	}
+	for _, b := range decl.Blocks {
+		for _, in := range b.Instrs {
+			st, ok := in.(*ssa.Store)
+			if !ok {
+				continue
+			}
+			if fa, ok := st.Addr.(*ssa.FieldAddr); ok && isChannelType(st.Val.Type()) {
+				if o := NamedOf(fa.X.Type()); o != nil {
+					out[chanField{o, fieldNameOf(fa)}] = true
+				}
+			}
+		}
+	}
+	return out, decl
+}
+
+// embedsOrIs: t is owner or embeds it (transitively, by value or pointer).
+func embedsOrIs(t, owner *types.Named, depth int) bool {
+	if t.Obj() == owner.Obj() {
+		return true
+	}
+	st, ok := t.Underlying().(*types.Struct)
+	if !ok || depth <= 0 {
+		return false
+	}
+	for i := 0; i < st.NumFields(); i++ {
+		f := st.Field(i)
+		if f.Embedded() {
+			if n := NamedOf(f.Type()); n != nil && embedsOrIs(n, owner, depth-1) {
+				return true
+			}
+		}
+	}
+	return false
+}
+
+// channelWired checks, for service type t, that every pushers.Channel field of t (or of a struct t embeds) that
+// Handle-reachable methods of those types read is one the effective SetChannel writes.
+func channelWired(c *Ctx, rule string, svc Service) {
+	p := c.P
+	written, setter := channelFieldsWritten(p, svc.Type)
+	key := TypeKey(svc.Type)
+	if setter == nil {
+		c.Undecided(rule, key+" SetChannel", p.Pos(svc.Handle.Pos()), "no SetChannel in the method set")
+		return
+	}
+	reach, _ := handleReach(p.VTA(), svc.Handle)
+	var fns []*ssa.Function
+	for fn := range reach {
+		fns = append(fns, fn)
+	}
+	sort.Slice(fns, func(i, j int) bool { return fns[i].String() < fns[j].String() })
+	seen := map[chanField]bool{}
+	for _, fn := range fns {
+		for _, b := range fn.Blocks {
+			for _, in := range b.Instrs {
+				ld, ok := in.(*ssa.UnOp)
+				if !ok || !isChannelType(ld.Type()) {
+					continue
+				}
+				fa, ok := ld.X.(*ssa.FieldAddr)
+				if !ok {
+					continue
+				}
+				o := NamedOf(fa.X.Type())
+				if o == nil || !embedsOrIs(svc.Type, o, 3) {
+					continue
+				}
+				cf := chanField{o, fieldNameOf(fa)}
+				if seen[cf] {
+					continue
+				}
+				seen[cf] = true
+				c.Check(written[cf], rule, key+" reads "+TypeKey(o)+"."+cf.name, p.InstrPos(ld), "set by "+shortFn(setter), "events are sent on "+TypeKey(o)+"."+cf.name+", but the SetChannel the server calls on "+key+" ("+shortFn(setter)+") never sets that field (a field/method of the outer type shadows the embedded one): the channel is nil, the first Send panics and none of these events is ever delivered")
+			}
+		}
+	}
+}
